@@ -9,7 +9,8 @@ What is regenerated from the source on every run:
                       syntactic taint check: the parameter may only be loaded (a) as the sole argument of a
                       known guard (`self._resolve_path`, `self._resolve_file_target`, `self._get_arrow_path`,
                       `self._get_arrow_write_path`, or a delegating entry point), or (b) inside an f-string
-                      (log / error text).  Any other use -- e.g. `open(path)` or `os.path.join(base, path)` in
+                      (log / error text), or (e) as the receiver of `.endswith("<literal>")` (a predicate of the
+                      spelling that names no location).  Any other use -- e.g. `open(path)` or `os.path.join(base, path)` in
                       an entry point -- makes the translator fail closed.  Proofs/PathProofs.v proves that the
                       model's run_entry uses exactly these guards (gen_guards_agree);
   gen_handle_fields / gen_handle_writes / gen_guard_reads
@@ -136,6 +137,12 @@ def _param_uses(fn: ast.FunctionDef, param: str) -> List[str]:
                     continue
             # (d) recorded as a NAME in the returned DataFile(file_path=...): not an access
             if isinstance(par, ast.keyword) and par.arg == "file_path":
+                continue
+            # (e) `param.endswith("<literal>")`: a predicate of the spelling (a trailing "/" asks for a directory, C20);
+            #     it selects between two stat calls on the GUARDED location and never names a location itself
+            gp = parents.get(par) if par is not None else None
+            if (isinstance(par, ast.Attribute) and par.attr == "endswith" and isinstance(gp, ast.Call) and gp.func is par
+                    and len(gp.args) == 1 and not gp.keywords and isinstance(gp.args[0], ast.Constant) and isinstance(gp.args[0].value, str)):
                 continue
             raise Unsupported(f"{fn.name}: raw path parameter {param!r} used outside a guard: {ast.unparse(par) if par is not None else '?'}")
     if not uses:
